@@ -347,7 +347,12 @@ def run_gpg(spec, rec, lib):
         if not getattr(R, "SSLIB_AVAILABLE", False):
             rec.inconclusive_because("GnuPG stand-in not picked up")
             return
-        home = gnupg.GpgHome().__enter__()
+        try:
+            home = gnupg.GpgHome().__enter__()
+        except Exception:  # noqa: BLE001 - environmental: skip the sub-workload
+            rec.count("gnupg_unavailable")
+            rec.case("gnupg-unavailable", nontrivial=False)
+            return
     saved = (getattr(R, "gpg_funcs", None), R.SSLIB_AVAILABLE)
     try:
         for d in range(spec["docs"]):
